@@ -63,19 +63,24 @@ def rule_defn(P) -> RuleResult:
         # a registration with fewer operands than the implementation has parameters leaves the last ones to their defaults: the
         # function called that way is the definition with the documented value in that place (round(x) is round(x, 0))
         n_given = len(f.intypes)
+        undocumented = False
         if n_given < len(params):
             defaults = fi.node.args.defaults
             for j in range(n_given, len(params)):
                 k = j + off - (len(fi.params) - len(defaults))
                 if f.name not in DEFN_DEFAULTS or j not in DEFN_DEFAULTS[f.name]:
-                    raise AnalysisError(f'{fi.fq}: {f.name}() is registered with {n_given} operand(s); no documented value on record for '
-                                        f'the omitted parameter `{params[j]}`')
+                    # an overload with fewer operands than the definition speaks of: what it means is not on record; the
+                    # registrations with all operands are judged on their own
+                    undocumented = True
+                    break
                 if k < 0 or not isinstance(defaults[k], ast.Constant):
                     res.fail(f'function:{f.name}', 'defn:changed', f'{f.name}() is registered with {n_given} operand(s) but `{params[j]}` has '
                              f'no constant default', loc(fi))
                     continue
                 env[params[j]] = defaults[k].value
                 denv[f'p{j}'] = DEFN_DEFAULTS[f.name][j]
+        if undocumented:
+            continue
         denv['__fi__'] = fi
         dpaths = Engine(P).paths(dnode, denv)
         want = _resolve_names(canon(dpaths[0].value), fi.module)
